@@ -92,6 +92,11 @@ def generate(rnd, tier):
         rows.append({"g": [rnd.choice(v) for v in vals], "label": rnd.choice(labs), "score": scores[i]})
     frame = {"group_cols": cols, "rows": rows, "extra_col": rnd.random() < 0.3, "index": rnd.choice(["default", "default", "shuffled", "str"]),
              "pos_label": pos_label, "int_scores": style == "int" and rnd.random() < 0.5}
+    if not frame["int_scores"] and rnd.random() < 0.12:
+        # single-precision score column whose values sit right next to one-decimal thresholds
+        frame["score_dtype"] = rnd.choice(["float32", "float32", "float16"])
+        for r_ in rows:
+            r_["score"] = float(np.asarray(round(r_["score"], 1), dtype=frame["score_dtype"]))
     if frame["int_scores"] and rnd.random() < 0.4:
         frame["score_dtype"] = rnd.choice(["uint8", "uint16", "int32"])
         for r_ in rows:
@@ -135,7 +140,8 @@ def generate(rnd, tier):
                 op["default_config"] = True  # the library's own default (bca, dynamic, 1000 samples) is too slow: keep method only
             if not fault_free and rnd.random() < 0.12:
                 if sampler.get("callable") and rnd.random() < 0.5:
-                    op["faults"] = [{"kind": "sampler_raise", "call": rnd.randint(0, op["cfg"]["nb_samples"])}]
+                    op["faults"] = [{"kind": "sampler_raise", "call": rnd.randint(0, op["cfg"]["nb_samples"]),
+                                     "exc": rnd.choice(["CallbackFault", "StopIteration", "ValueError", "KeyError", "RuntimeError"])}]
                 else:
                     op["faults"] = [{"kind": "interrupt", "at_line": int(10 ** rnd.uniform(0.3, 4.0)), "exc": rnd.choice(["SimInterrupt", "MemoryError"])}]
             elif not fault_free and sampler.get("callable") != "identity" and rnd.random() < 0.5:
@@ -234,12 +240,14 @@ class RecSampler:
         self.inputs, self.outputs = [], []
         self.raise_at, self.raised = raise_at, False
         self.reenter, self.reentered = False, False
+        self.raise_exc = None
 
     def __call__(self, source, **kw):
         if self.raise_at is not None and len(self.inputs) == self.raise_at:
             self.raised = True
             self.inputs.append(source)
-            raise CallbackFault(f"planned failure of sampler call {self.raise_at}")
+            raise {"StopIteration": StopIteration, "ValueError": ValueError, "KeyError": KeyError, "RuntimeError": RuntimeError}.get(
+                self.raise_exc, CallbackFault)(f"planned failure of sampler call {self.raise_at}")
         self.inputs.append(source)
         if self.reenter and len(self.inputs) % 3 == 2:
             self.reentered = True
@@ -337,6 +345,7 @@ def execute(scn, ctx):
                 ra = next((f["call"] for f in (op.get("faults") or []) if f["kind"] == "sampler_raise"), None)
                 sampler = RecSampler(s_kind, inner, raise_at=ra)
                 sampler.reenter = bool(sspec.get("reenter"))
+                sampler.raise_exc = next((f.get("exc") for f in (op.get("faults") or []) if f["kind"] == "sampler_raise"), None)
                 config = M.build_config(dict(cfg, sampling_method={"callable": s_kind}), sampler=sampler)
             else:
                 config = M.build_config(dict(sspec, **cfg))
@@ -379,7 +388,11 @@ def execute(scn, ctx):
                           not any(k == d and r["label"] != pos_label for k, r in zip(keys, rows)) for d in distinct)
             # single-pass sampling of an empty stratum is outside the sampling quantifier (C11/C12)
             outside = eff_single and (npos == 0 or nneg == 0 or (st == "by_group" and lacking))
-        if not res["ok"] and control_fault:
+        if res["ok"] and sampler is not None and sampler.raised and sampler.raise_at is not None and sampler.raise_at < int(op["cfg"]["nb_samples"]):
+            bad("sampler_failure_swallowed", f"the sampler raised {sampler.raise_exc or 'CallbackFault'} on call {sampler.raise_at} of "
+                                             f"{op['cfg']['nb_samples']} but showbias returned intervals")
+            outcome = "returned-after-swallowed-failure"  # the intervals are typically uninitialised memory: nothing else is checked
+        elif not res["ok"] and control_fault:
             outcome = "failed-after-fault"  # fail-or-correct: the frame was checked above
         elif not res["ok"] and outside:
             outcome = "outside-quantifier:" + type(res["value"]).__name__
@@ -545,7 +558,7 @@ def execute(scn, ctx):
                                                             f"replicates (normalize={norm}) with the reported values {est.tolist()} as estimate is "
                                                             f"lower={e0[..., 0].tolist()} upper={e0[..., 1].tolist()}")
         trace.append([step, "showbias", metric, tags, sorted(set(fired)), outcome,
-                      M.digest(M.canon(res["value"]))[:16] if res["ok"] else None, res["draws"]])
+                      M.digest(M.canon(res["value"]))[:16] if res["ok"] and not control_fault else None, res["draws"]])
         inner = (op.get("sampler") or {}).get("inner", op.get("sampler") or {})
         sig.append(f"{metric}|{norm}|{boot}|{tags.get('method')}|{s_kind}|{inner.get('sampling_method', '')}|{inner.get('stratified_sampling', '')}|"
                    f"{len(used)}|{tk}|{sc}{ec}|{','.join(sorted(set(fired)))}|{outcome}")
